@@ -240,6 +240,7 @@ def oracle_srs_error(case, R):
     sig = make_signal(case)
     sr = case["sr"]
     freq = np.array(case["freq"], float)
+    freq = freq[freq > 0]                 # (the 0 Hz oscillator has no finite relative response to set a limit by)
     kw = dict(ic=case["ic"], stype=case["stype"], time=case["time"], getresp=case["getresp"])
     sh = np.atleast_2d(np.asarray(srs.srs(sig, sr, freq, case["Q"], parallel="no", peak="abs",
                                            **dict(kw, getresp=False))))
@@ -324,7 +325,11 @@ def srs_cases(draw):
     if len(freq) < 2:
         freq = [10.0, 50.0]
     # "any frequency vector": a fifth of the vectors repeat an entry (consecutively), a fifth are unsorted
-    shape = draw(st.sampled_from(["sorted", "sorted", "sorted", "repeat", "shuffled"]))
+    shape = draw(st.sampled_from(["sorted", "sorted", "sorted", "repeat", "shuffled", "zero"]))
+    if shape == "zero":
+        # a 0 Hz entry (the rigid oscillator) anywhere in the vector
+        i0 = draw(st.integers(0, len(freq)))
+        freq = freq[:i0] + [0.0] + freq[i0:]
     if shape == "repeat":
         i = draw(st.integers(0, len(freq) - 1))
         freq = freq[: i + 1] + [freq[i]] * draw(st.integers(1, 2)) + freq[i + 1:]
@@ -366,7 +371,8 @@ def enum_grid(shard, nshards, tier):
                     i += 1
                     if i % nshards == shard:
                         yield {"n": 400 + 7 * i, "ncol": 1 + i % 3, "onedim": bool(i % 2), "sr": 1000.0,
-                               "freq": [10.0, 35.0, 35.0, 80.0, 150.0, 220.0][: 3 + i % 4], "Q": 10.0, "stype": stype,
+                               "freq": ([0.0] if i % 2 else []) + [10.0, 35.0, 35.0, 80.0, 150.0, 220.0][: 3 + i % 4],
+                               "Q": 10.0, "stype": stype,
                                "ic": ic, "peak": ["abs", "pos", "neg", "poss", "negs", "rms"][i % 6], "time": tm,
                                "getresp": getresp, "eqsine": False, "maxcpu": [2, 3, 4][i % 3],
                                "delay": "reverse", "offset": 3.0, "seed": i}
